@@ -965,8 +965,14 @@ class RetrySender(object):
         self.pkt_type = pkt_type
         self.payload = payload
         self.callback = callback
+        self.done = False
 
     def __call__(self, success):
+        # the message can travel in more than one datagram. only the first
+        # ack counts, later acks or timeouts must not notify or resend again
+        if self.done:
+            return
+
         # keep re-trying until it succeeds
         if not success:
 
@@ -975,8 +981,10 @@ class RetrySender(object):
 
             self.conn.outgoing_messages.append(msg)
 
-        elif self.callback:
-            self.callback(True)
+        else:
+            self.done = True
+            if self.callback:
+                self.callback(True)
 
 class Bytes(bytes):
     seq = SeqNum()
